@@ -58,8 +58,11 @@ expr_t::parser_t::parse_value_term(std::istream&        in,
   }
 
   case token_t::LPAREN:
+    if (++nesting_depth > MAX_NESTING_DEPTH)
+      throw_(parse_error, _("Expression is nested too deeply"));
     node = parse_value_expr(in, tflags.plus_flags(PARSE_PARTIAL)
                             .minus_flags(PARSE_SINGLE));
+    --nesting_depth;
     tok = next_token(in, tflags, token_t::RPAREN);
     break;
 
@@ -553,6 +556,8 @@ expr_t::parser_t::parse(std::istream&           in,
                         const parse_flags_t&    flags,
                         const optional<string>& original_string)
 {
+  nesting_depth = 0;
+
   try {
     ptr_op_t top_node = parse_value_expr(in, flags);
 
